@@ -334,7 +334,7 @@ func TestC19Omitted(t *testing.T) {
 // visit each of the ~1500 pairs.
 
 func TestC19OmittedAll(t *testing.T) {
-	r := h.NewRecorder(t, "C19", "omitted-all", "every (command template, omitted scalar option) pair of the template table, twice per run, on a data set with 12-16 tips and on one with 67-130 tips, both generated from VERIF_SEED: the command without the option and with --option=<documented default> must give identical exit status, stdout and files; non-trivial = the baseline run exits with status 0 and produces output")
+	r := h.NewRecorder(t, "C19", "omitted-all", "every (command template, omitted scalar option) pair of the template table, twice per run, on a data set with 12-16 tips and on one with 67-130 tips, both generated from VERIF_SEED: the command without the option and with --option=<documented default> must give identical exit status, stdout and files; the templates that type no option at all are also run with standard input on the null device (not a pipe), bare and with each option at its default; non-trivial = the baseline run exits with status 0 and produces output")
 	var rc OmitCase
 	if replaying, mine := r.ReplayCase(&rc); replaying {
 		if mine {
@@ -381,6 +381,37 @@ func TestC19OmittedAll(t *testing.T) {
 				if err != nil {
 					r.Fail(c, "%v", err)
 				}
+			}
+		}
+	}
+	// nothing typed at all, standard input not redirected (null device): every command that takes
+	// its input from stdin by default must then behave as with any one option typed with its
+	// documented default (both read an empty input)
+	for _, tp := range clit.Templates() {
+		bare := !tp.Seeded
+		for _, a := range tp.Args {
+			if strings.HasPrefix(a, "-") || strings.HasPrefix(a, "@") {
+				bare = false
+			}
+		}
+		if !bare {
+			continue
+		}
+		for _, f := range omittable(tp) {
+			k++
+			if k%h.NShards() != h.Shard() {
+				continue
+			}
+			id := map[string]any{"template": tp.Name, "flag": f.Name, "stdin": "null device"}
+			dir := cli.Scratch()
+			base := cli.RunNoStdin(dir, tp.Args...)
+			with := cli.RunNoStdin(dir, append(append([]string{}, tp.Args...), "--"+f.Name+"="+f.DefValue)...)
+			r.Eval(id, true, "no-stdin")
+			if base.TimedOut || with.TimedOut {
+				continue // a command waiting for input is not this check's subject
+			}
+			if base.Code != with.Code || base.Stdout != with.Stdout {
+				r.Fail(id, "gotree %s with nothing typed and no redirected input: exit status %d, %d bytes printed; with --%s=%s: exit status %d, %d bytes printed", strings.Join(tp.Args, " "), base.Code, len(base.Stdout), f.Name, f.DefValue, with.Code, len(with.Stdout))
 			}
 		}
 	}
